@@ -34,7 +34,11 @@ class CustomFailure(Exception):
 
 
 EXCS = [ValueError, KeyError, TypeError, OSError, RuntimeError, MemoryError, RecursionError, AssertionError, UnicodeError, ZeroDivisionError, CustomFailure]
-GARBAGE = ["empty", "truncated", "binary", "array", "delta-no-baseline", "foreign", "bigline", "dir", "scalar", "nul"]
+GARBAGE = ["empty", "truncated", "binary", "array", "delta-no-baseline", "foreign", "bigline", "dir", "scalar", "nul",
+           # snapshots that carry every schema stamp but are damaged at field level (they are real snapshots as far as the loader
+           # can tell, so only "the turn completes" is judged for them, not equality with an empty directory)
+           "stamped:edges-list", "stamped:edges-scalar", "stamped:edge-weight-null", "stamped:edge-weight-text", "stamped:edge-weight-object", "stamped:nodes-list", "stamped:store-garbage"]
+PARTIAL = tuple(g for g in GARBAGE if g.startswith("stamped:"))
 SITES = ["boot-failpoint", "boot-garbage", "gel-merge-candidates", "gel-apply-merge", "gel-split-candidates", "gel-apply-split", "gel-promote", "gel-apply-promotion",
          "reflect-compute", "reflect-write", "reflect-telemetry", "llm-adapter-build", "llm-adapter-ci-provider", "hybrid-rerank", "fusion", "mmr", "quality-trace",
          "cache-invalidate", "store-batch", "store-all", "store-some", "sidecar"]
@@ -94,7 +98,8 @@ def site_cfgs(site, rng):
         base["t2"]["quality"]["shadow"] = False
         return on, base
     if site == "cache-invalidate":
-        return {"t4": {"cache_bust_mode": "on-apply", "cache": {"enabled": True, "namespaces": ["t2:semantic"]}}}, {"t4": {"cache_bust_mode": "none", "cache": {"enabled": True, "namespaces": ["t2:semantic"]}}}
+        ns = rng.choice([["t2:semantic"], ["t2:semantic"], [], ["t2:semantic", "t2:semantic"]])  # an empty list = nothing to invalidate
+        return {"t4": {"cache_bust_mode": "on-apply", "cache": {"enabled": True, "namespaces": ns}}}, {"t4": {"cache_bust_mode": "none", "cache": {"enabled": True, "namespaces": ns}}}
     return {}, {}
 
 
@@ -222,6 +227,27 @@ def plant_garbage(d, kind, rng, name=None):
         open(p, "w").write("42")
     elif kind == "nul":
         open(p, "wb").write(b"\x00" * 100)
+    elif kind.startswith("stamped:"):
+        import json as _json
+        good_edge = {"src": "x1", "dst": "x2", "weight": 0.5, "rel": "coact", "attrs": {"coact": 1}}
+        gel = {"nodes": {}, "edges": {"x1→x2": dict(good_edge)}, "meta": {"schema": "v1.1", "merges": [], "splits": [], "promotions": [], "concept_nodes_count": 0, "edges_count": 1}}
+        store = {"weights": []}
+        what = kind.split(":", 1)[1]
+        if what == "edges-list":
+            gel["edges"] = [dict(good_edge), 7, None]
+        elif what == "edges-scalar":
+            gel["edges"] = "oops"
+        elif what == "edge-weight-null":
+            gel["edges"]["x1→x2"]["weight"] = None
+        elif what == "edge-weight-text":
+            gel["edges"]["x1→x2"]["weight"] = "heavy"
+        elif what == "edge-weight-object":
+            gel["edges"]["x1→x2"]["weight"] = {"v": 1}
+        elif what == "nodes-list":
+            gel["nodes"] = [1, 2]
+        elif what == "store-garbage":
+            store = {"weights": [{"target_kind": "node"}, 5, None, {"target_kind": "node", "target_id": "n:a", "attr": "weight", "value": "x"}]}
+        open(p, "w", encoding="utf-8").write(_json.dumps({"schema_version": "v1", "version_etag": "5", "graph_schema_version": "v1.1", "gel": gel, "graph": gel, "store": store}, ensure_ascii=False))
 
 
 def gen_case(rng, sites=None, exc_i=None, garbage=None):
@@ -368,6 +394,9 @@ def check_case(case, sess: Session):
         sess.inconclusive_because("baseline run raised: " + str([r["exc"] for r in b["results"] if r.get("exc")][0])[:120])
         return
     sess.count("baseline_twins_compared")
+    if "boot-garbage" in case["sites"] and case["garbage"] in PARTIAL:
+        sess.count("partially_valid_snapshots_booted(turn completion only)")
+        return
     if f["canon"] != b["canon"]:
         from vlib.turn import _json_diff
         diffs = []
